@@ -42,6 +42,30 @@ def field_specials(name, w):
     return sorted(v for v in vals if 0 <= v < (1 << w))
 
 
+TEXT_FIELDS = {"callsign", "vessel_name", "destination", "name", "vendor_id", "model_serial"}
+
+
+def structured_chars(rng, n):
+    """n six-bit character codes shaped like real text: optional leading blanks, letters with
+    embedded blanks and '@', and a tail mixing spaces (32) and '@' padding (0) in either order."""
+    lead = rng.choice([0, 0, 1, 2])
+    tail = [rng.choice([0, 32]) for _ in range(rng.choice([0, 1, 2, 3, 5]))]
+    if rng.random() < 0.5:
+        tail.sort(reverse=rng.random() < 0.5)
+    body_n = max(0, n - lead - len(tail))
+    body = [rng.choice([1, 2, 3, 19, 20, 26, 33, 48, 57, 63, 32, 0, 45]) if rng.random() < 0.25 else rng.randrange(1, 27)
+            for _ in range(body_n)]
+    chars = ([32] * lead + body + tail)[:n]
+    return chars + [0] * (n - len(chars))
+
+
+def chars_value(chars):
+    v = 0
+    for c in chars:
+        v = (v << 6) | c
+    return v
+
+
 def type_code(t):
     return 24 if isinstance(t, str) else t
 
@@ -50,6 +74,8 @@ def base_fields(t, rng, layout):
     f = {}
     for (name, off, w) in layout:
         f[name] = rng.getrandbits(w)
+        if name in TEXT_FIELDS and w % 6 == 0 and rng.random() < 0.5:
+            f[name] = chars_value(structured_chars(rng, w // 6))
     f["type"] = type_code(t)
     if t == "24A":
         f["partno"] = 0
@@ -117,6 +143,8 @@ def tail_for(t, rng):
         nchar = rng.choice([1, 2, 3, 4, 8, 12, 16, 20])
         hdr = 72 if t == 12 else 40
         bits = [rng.getrandbits(1) for _ in range(6 * nchar)]
+        if rng.random() < 0.5:
+            bits = [(c >> (5 - i)) & 1 for c in structured_chars(rng, nchar) for i in range(6)]
         total = hdr + len(bits)
         pad = (8 - total % 8) % 8
         # header is byte-aligned for both (72, 40), so the tail is just the text bits
